@@ -96,13 +96,13 @@ def gen_programs(rng, tier):
     q = tier == "quick"
     for _ in range(2 if q else 4):
         ops, sigs = C04.small_program(rng, tier)
-        out.append(dict(ops=ops, sigs=sigs, gen="C04small", ncor=260 if q else 1200))
+        out.append(dict(ops=ops, sigs=sigs, gen="C04small", ncor=150 if q else 1200))
     ops, sigs = C04.big_program(rng, tier)
     out.append(dict(ops=ops, sigs=sigs, gen="C04big", ncor=30 if q else 150))
-    for _ in range(14 if q else 40):
+    for _ in range(9 if q else 40):
         ops, sigs, has_omit = C17.gen_writer(rng, tier, allow_omit=True, deep=rng.random() < 0.5)
         out.append(dict(ops=ops, sigs=sigs, gen="C17" + ("omit" if has_omit else ""), ncor=10 if q else 20))
-    for _ in range(10 if q else 30):
+    for _ in range(7 if q else 30):
         script, sts = C01.gen_case(rng, "quick")
         ops = script.split(";")
         i = ops.index("wclose")
